@@ -130,6 +130,11 @@ def apply_req_fault(text: str, fault: Tuple[Any, ...]) -> str:
 # --- response leg ---------------------------------------------------------------------------------------------
 def apply_resp_fault(text: Optional[str], fault: Tuple[Any, ...], request_text: str, world: Any = None) -> Optional[str]:
     kind = fault[0]
+    if kind == 'seq':
+        # several faults on the same reply, applied in order
+        for f in fault[1]:
+            text = apply_resp_fault(text, tuple(f), request_text, world)
+        return text
     if kind == 'truncate':
         if not text:
             return text
